@@ -392,18 +392,68 @@ func init() {
 	}
 }
 
+// decodeRuneSym decodes the UTF-8 sequence starting at s[i] (bytes may be symbolic), forking on the
+// byte classes exactly as unicode/utf8.DecodeRuneInString does; returns the rune (int32, possibly
+// symbolic) and its width.
+func decodeRuneSym(s value, i int) (value, int) {
+	n := strLen(s)
+	bt := func(k int) *Term { t, _ := termOf(strByte(s, k)); return t }
+	in := func(t *Term, lo, hi uint64) bool {
+		return ex.branch(mkAnd(mkCmp("bvuge", t, mkConst(8, lo)), mkCmp("bvule", t, mkConst(8, hi))))
+	}
+	ext := func(t *Term) *Term { return mkExtend(false, 32, t) }
+	cont := func(t *Term) *Term { return mkBV("bvand", ext(t), mkConst(32, 0x3F)) }
+	shl := func(t *Term, k uint64) *Term { return mkBV("bvshl", t, mkConst(32, k)) }
+	or := func(a, b *Term) *Term { return mkBV("bvor", a, b) }
+	runeError := value(int32(0xFFFD))
+	b0 := bt(i)
+	if ex.branch(mkCmp("bvult", b0, mkConst(8, 0x80))) {
+		return mkSym(ext(b0), types.Int32), 1
+	}
+	if in(b0, 0xC2, 0xDF) {
+		if i+1 < n && in(bt(i+1), 0x80, 0xBF) {
+			return mkSym(or(shl(mkBV("bvand", ext(b0), mkConst(32, 0x1F)), 6), cont(bt(i+1))), types.Int32), 2
+		}
+		return runeError, 1
+	}
+	if in(b0, 0xE0, 0xEF) {
+		lo, hi := uint64(0x80), uint64(0xBF)
+		if ex.branch(mkEq(b0, mkConst(8, 0xE0))) {
+			lo = 0xA0
+		} else if ex.branch(mkEq(b0, mkConst(8, 0xED))) {
+			hi = 0x9F
+		}
+		if i+2 < n && in(bt(i+1), lo, hi) && in(bt(i+2), 0x80, 0xBF) {
+			r := or(or(shl(mkBV("bvand", ext(b0), mkConst(32, 0x0F)), 12), shl(cont(bt(i+1)), 6)), cont(bt(i+2)))
+			return mkSym(r, types.Int32), 3
+		}
+		return runeError, 1
+	}
+	if in(b0, 0xF0, 0xF4) {
+		lo, hi := uint64(0x80), uint64(0xBF)
+		if ex.branch(mkEq(b0, mkConst(8, 0xF0))) {
+			lo = 0x90
+		} else if ex.branch(mkEq(b0, mkConst(8, 0xF4))) {
+			hi = 0x8F
+		}
+		if i+3 < n && in(bt(i+1), lo, hi) && in(bt(i+2), 0x80, 0xBF) && in(bt(i+3), 0x80, 0xBF) {
+			r := or(or(or(shl(mkBV("bvand", ext(b0), mkConst(32, 0x07)), 18), shl(cont(bt(i+1)), 12)), shl(cont(bt(i+2)), 6)), cont(bt(i+3)))
+			return mkSym(r, types.Int32), 4
+		}
+		return runeError, 1
+	}
+	return runeError, 1
+}
+
 func init() {
-	// strings.ContainsFunc(s, f) for ASCII-only symbolic strings: call f on each byte as a rune
+	// strings.ContainsFunc(s, f): f is called on each rune of s, decoded as UTF-8 (symbolic bytes
+	// are decoded with a case split on the byte classes)
 	lateModels["strings.ContainsFunc"] = func(fr *frame, args []value) value {
+		modelsHit["strings.ContainsFunc"]++
 		s := args[0]
-		for i := 0; i < strLen(s); i++ {
-			b := strByte(s, i)
-			var r value
-			if sb, ok := b.(sym); ok {
-				r = symConv(types.Typ[types.Int32], sb)
-			} else {
-				r = int32(b.(uint8))
-			}
+		for i := 0; i < strLen(s); {
+			r, w := decodeRuneSym(s, i)
+			i += w
 			res := call(fr.i, fr, token.NoPos, args[1], []value{r})
 			switch res := res.(type) {
 			case bool:
